@@ -22,6 +22,19 @@ import (
 // "killchild") appends and saves, printing an acknowledgement line after every call that returned;
 // the parent kills it at a chosen instant, reopens the database and reports what it finds.
 
+// zonedTime: the instant k seconds after the epoch, in a zone that depends on k (UTC, a zone whose abbreviation is a numeric
+// offset with minutes, a zone with a seconds offset): what was acknowledged must be readable after reopening
+func zonedTime(k int) time.Time {
+	t := time.Unix(int64(k), 0)
+	switch k % 3 {
+	case 0:
+		return t.UTC()
+	case 1:
+		return t.In(time.FixedZone("", 5*3600+45*60))
+	}
+	return t.In(time.FixedZone("LMT", -(4*3600 + 56*60 + 2)))
+}
+
 func killChildMain(args []string) {
 	path, start, saveEvery := args[0], atoi(args[1]), atoi(args[2])
 	st, err := ebsql.New(path)
@@ -32,7 +45,7 @@ func killChildMain(args []string) {
 	ctx := context.Background()
 	for k := start; ; k++ {
 		data, _ := json.Marshal(map[string]int{"id": k})
-		off, err := st.Append(ctx, &eb.Event{Type: "t", Data: data, Timestamp: time.Unix(int64(k), 0)})
+		off, err := st.Append(ctx, &eb.Event{Type: "t", Data: data, Timestamp: zonedTime(k)})
 		if err != nil {
 			fmt.Println("E", err)
 			os.Exit(1)
@@ -191,7 +204,7 @@ func durableDomain(lines []string) []string {
 			larger := true
 			for i := 0; i < n; i++ {
 				data, _ := json.Marshal(map[string]int{"id": dc.next})
-				off, err := st.Append(context.Background(), &eb.Event{Type: "t", Data: data, Timestamp: time.Unix(int64(dc.next), 0)})
+				off, err := st.Append(context.Background(), &eb.Event{Type: "t", Data: data, Timestamp: zonedTime(dc.next)})
 				if err != nil {
 					dc.out = append(dc.out, "!append-failed "+err.Error())
 					break
@@ -312,6 +325,42 @@ func durableDomain(lines []string) []string {
 			} else {
 				dc.out = append(dc.out, "appendnil refused")
 			}
+		case "saveback": // the saved offset is whatever was saved last, also when that is an earlier position
+			st, err := ebsql.New(dc.path)
+			if err != nil {
+				dc.out = append(dc.out, "!open-failed "+err.Error())
+				continue
+			}
+			var offs []eb.Offset
+			for i := 0; i < 3; i++ {
+				data, _ := json.Marshal(map[string]int{"id": dc.next})
+				off, err := st.Append(context.Background(), &eb.Event{Type: "t", Data: data, Timestamp: zonedTime(dc.next)})
+				if err != nil {
+					break
+				}
+				dc.acked = append(dc.acked, dc.next)
+				dc.next++
+				offs = append(offs, off)
+			}
+			verdict := "saveback ok"
+			if len(offs) == 3 {
+				e1 := st.SaveOffset(context.Background(), "s", offs[2])
+				e2 := st.SaveOffset(context.Background(), "s", offs[0])
+				st.Close()
+				_, _, saved, rerr := dc.readAll()
+				switch {
+				case e1 != nil || e2 != nil || rerr != nil:
+					verdict = fmt.Sprintf("!saveback %v %v %v", e1, e2, rerr)
+				case saved != atoi(string(offs[0])):
+					verdict = fmt.Sprintf("!saveback SaveOffset(%s) then SaveOffset(%s) both returned nil; after reopening the saved offset is %d", offs[2], offs[0], saved)
+				default:
+					dc.savedAck = saved
+				}
+			} else {
+				st.Close()
+				verdict = "!saveback append failed"
+			}
+			dc.out = append(dc.out, verdict)
 		case "saveretry": // a SaveOffset that fails (its context is already over) is retried with the same offset, then the store is reopened
 			st, err := ebsql.New(dc.path)
 			if err != nil {
